@@ -138,6 +138,50 @@ def loopCtxError (reportsCtxErr : Bool) (c : CtxEnd) : GoErr :=
 def ctxEndThrough (hasUnwrap reportsCtxErr : Bool) (levels : List Level) (endAt : Nat) (c : CtxEnd) : GoErr :=
   graphFailThrough hasUnwrap (levels.take endAt) (loopCtxError reportsCtxErr c)
 
+/-! ### an interrupt and a node failure meet (graph_run.go, eager mode)
+
+  In eager mode (Workflow) the loop takes the tasks of the run ONE at a time, in the order in
+  which they complete.  A task it takes may put the loop at an interrupt point: the task itself
+  asks for it (`InterruptAndRerun`, a nested graph that interrupted: its "error" is an interrupt),
+  or its key is an interrupt-after node, or one of the tasks it makes ready is an
+  interrupt-before node (`point k`).  At an interrupt point the loop DRAINS the tasks still in
+  flight (`tm.waitAll()`) and classifies them with `resolveInterruptCompletedTasks` like any
+  other completed task; `drainChecked` is the source fact "the error that classification returns
+  for the drained tasks is looked at" (false: it is dropped and the run reports the interrupt). -/
+
+inductive RoundResult where
+  /-- the run returns this error -/
+  | failed (e : GoErr)
+  /-- the run returns an interrupt error (checkpoint written) -/
+  | interrupted
+  /-- every task was taken, nothing failed, no interrupt point -/
+  | goesOn
+  deriving Repr, DecidableEq
+
+/-- the first task, in the given order, that really failed (an interrupt is not a failure) -/
+def firstFailure (hasUnwrap : Bool) : List (Key × Option GoErr) → Option (Key × GoErr)
+  | [] => none
+  | (k, some e) :: rest => if isInterrupt hasUnwrap e then firstFailure hasUnwrap rest else some (k, e)
+  | (_, none) :: rest => firstFailure hasUnwrap rest
+
+/-- the loop is at an interrupt point and drains the tasks still in flight -/
+def drainAtInterrupt (hasUnwrap drainChecked : Bool) (inFlight : List (Key × Option GoErr)) : RoundResult :=
+  if drainChecked then
+    match firstFailure hasUnwrap inFlight with
+    | some (k, e) => .failed (wrapNode hasUnwrap k e)
+    | none => .interrupted
+  else .interrupted
+
+/-- the eager loop over the tasks in the order in which they complete -/
+def eagerRun (hasUnwrap drainChecked : Bool) (point : Key → Bool) : List (Key × Option GoErr) → RoundResult
+  | [] => .goesOn
+  | (k, some e) :: rest =>
+    if isInterrupt hasUnwrap e then drainAtInterrupt hasUnwrap drainChecked rest
+    else .failed (wrapNode hasUnwrap k e)
+  | (k, none) :: rest =>
+    if point k then drainAtInterrupt hasUnwrap drainChecked rest
+    else eagerRun hasUnwrap drainChecked point rest
+
 /-! ### what the caller can read: the error's text; observers on the way out
 
   `wrapGraphNodeError` does not build a new error for every nesting level: it finds the one
